@@ -15,7 +15,7 @@ use midnight_proofs::{circuit::{Layouter, Value}, plonk::Error};
 use midnight_zk_stdlib::ZkStdLib;
 use num_bigint::BigUint;
 use num_integer::Integer;
-use num_traits::{One, Zero};
+use num_traits::Zero;
 use vgad::{val::*, Exposer, Judgement, F};
 
 use crate::{common::*, dec::*};
@@ -144,11 +144,11 @@ pub fn reference(op: &BOp, ins: &[V]) -> Option<Vec<V>> {
         }
         Select(..) => vec![V::U(if ins[0].b() { u(1) } else { u(2) })],
         ToLeBits(w) => {
-            let n = 96 * w.div_ceil(96) as usize;
+            let n = 96 * u32::div_ceil(*w, 96) as usize;
             vec![V::Bits((0..n).map(|i| u(0).bit(i as u64)).collect())]
         }
         ToLeBytes(w) => {
-            let n = 12 * w.div_ceil(96) as usize;
+            let n = 12 * u32::div_ceil(*w, 96) as usize;
             let mut b = u(0).to_bytes_le();
             b.resize(n, 0);
             vec![V::Bytes(b)]
@@ -330,6 +330,5 @@ pub fn synth_big<L: Layouter<F>>(std: &ZkStdLib, l: &mut L, ex: &Exposer, op: &B
             A::Bytes(c) => ex.output_with(&NatVecChip, std, l, &bytes_to_natvec(c))?,
         }
     }
-    let _ = One::one() as BigUint;
     Ok(())
 }
